@@ -114,7 +114,8 @@ class ClockworkCheck(E2ECheck):
 
     def mix(self, tier):
         return [("clockwork", {"max_invocations": 14}, 0.6), ("clockwork", {"max_invocations": 30, "p_preload": 1.0}, 0.2),
-                ("clockwork", {"max_invocations": 14, "exec_needs_ram": True, "p_preload": 0.2}, 0.45)]
+                ("clockwork", {"max_invocations": 14, "exec_needs_ram": True, "p_preload": 0.2}, 0.45),
+                ("clockwork", {"max_invocations": 10, "tight_memory": True, "p_preload": 0.0}, 0.2)]
 
     def deciding_counters(self, tot):
         return [("Clockwork invocations", tot.get("cw_invocations", 0), 1500),
